@@ -12,6 +12,7 @@ pub mod c12;
 pub mod c13;
 pub mod c14;
 pub mod c15;
+pub mod c16;
 pub mod c17;
 pub mod c18;
 pub mod c19;
@@ -33,6 +34,7 @@ pub fn run(prop: &str, tier: Tier) -> Report {
         "C13" => c13::run(tier),
         "C14" => c14::run(tier),
         "C15" => c15::run(tier),
+        "C16" => c16::run(tier),
         "C17" => c17::run(tier),
         "C18" => c18::run(tier),
         "C19" => c19::run(tier),
@@ -59,6 +61,7 @@ pub fn replay(prop: &str, _tier: Tier, case: &serde_json::Value) -> Vec<Violatio
         "C13" => c13::replay(case),
         "C14" => c14::replay(case),
         "C15" => c15::replay(case),
+        "C16" => c16::replay(case),
         "C17" => c17::replay(case),
         "C18" => c18::replay(case),
         "C19" => c19::replay(case),
@@ -74,6 +77,7 @@ pub fn worker(prop: &str, tier: Tier, args: &[String]) -> i32 {
         "C03" => crate::pool::child(&c03::C03, tier, args),
         "C04" => crate::pool::child(&c04::C04, tier, args),
         "C12" => crate::pool::child(&c12::C12, tier, args),
+        "C16" => crate::pool::child(&c16::C16, tier, args),
         "C18" => crate::pool::child(&c18::C18, tier, args),
         _ => {
             eprintln!("unknown pooled property {prop}");
